@@ -96,6 +96,7 @@ type JobResult struct {
 }
 
 type Exec struct {
+	initErr string // unsupported construct met while running the package initialisers
 	prog    *ssa.Program
 	solver  *Solver
 	cfg     JobConfig
